@@ -264,8 +264,131 @@ fn enumerate(len: usize) -> Vec<Seq> {
     }
 }
 
+// ------------------------------------------------------------------ the client codec and replies of several server sessions
+
+/// The real client datagram codec of one binding decodes a generated history of replies that carry one of up to three
+/// server session ids (a restarted server, an expired association, an attacker replaying recorded datagrams of an older
+/// session). However the codec treats a change of server session, no reply (server session id, packet id) may be handed to
+/// the application twice; with a single server session the accept/refuse decisions must equal the model's.
+#[derive(Clone, Debug, Serialize, Deserialize)]
+pub struct ReplySessionsCase {
+    pub cipher: crate::refimpl::ss2022::C22,
+    pub n_users: u8,
+    pub seed: u64,
+    /// (server session index 0..3, op)
+    pub steps: Vec<(u8, Op)>,
+    pub sessions: u8,
+}
+
+pub struct ReplySessions;
+
+impl SubCheck for ReplySessions {
+    type Case = ReplySessionsCase;
+    fn name(&self) -> &'static str {
+        "client-reply-sessions"
+    }
+    fn strategy(&self, _tier: Tier) -> BoxedStrategy<ReplySessionsCase> {
+        use crate::refimpl::ss2022::C22;
+        (proptest::sample::select(C22::ALL.to_vec()), 0u8..3, any::<u64>(), prop_oneof![2 => Just(1u8), 3 => Just(2u8), 1 => Just(3u8)], proptest::collection::vec((0u8..3, op_strategy()), 1..60))
+            .prop_map(|(cipher, n_users, seed, sessions, steps)| ReplySessionsCase { cipher, n_users, seed, steps, sessions })
+            .boxed()
+    }
+    fn exec(&self, c: &ReplySessionsCase) -> Outcome {
+        use crate::gen::T0;
+        use crate::real::{self, Proto};
+        use crate::refimpl::Addr;
+        let mut out = Outcome::new();
+        real::set_clock(Some(T0));
+        let n_users = if c.cipher.is_aes() { c.n_users as usize } else { 0 };
+        let cred = crate::gen::make_cred(Proto::Ss22(c.cipher), "", c.seed, n_users, 0);
+        let Ok(cctx) = real::ClientUdpCtx::new(&cred) else { return out };
+        let Ok(sudp) = real::server_udp(&cred) else { return out };
+        let mut cc = cctx.codec();
+        let target = real::to_address(&Addr::V4([10, 1, 2, 3], 53)).unwrap();
+        // one request, so that the server side knows the client's session (and user)
+        let mut q = bytes::BytesMut::new();
+        if !matches!(rt::catch(|| cc.encode(b"q", target.clone(), &mut q)), Ok(Ok(()))) {
+            return out;
+        }
+        let sess = match rt::catch(|| sudp.decode(&mut q)) {
+            Ok(Ok(Some((_, _, s)))) => s,
+            _ => return out,
+        };
+        // concretize the per-session id histories with the same rules as the filter check
+        let k = c.sessions.clamp(1, 3) as usize;
+        let mut per: Vec<History> = (0..k).map(|_| History { limit: 0, top: false, ops: vec![] }).collect();
+        let mut order: Vec<usize> = vec![];
+        for (si, op) in &c.steps {
+            let si = *si as usize % k;
+            per[si].ops.push(op.clone());
+            order.push(si);
+        }
+        let ids: Vec<Vec<u64>> = per.iter().map(|h| concretize(h).1).collect();
+        let mut next = vec![0usize; k];
+        let mut seen: std::collections::HashSet<(usize, u64)> = Default::default();
+        let mut delivered: std::collections::HashSet<(usize, u64)> = Default::default();
+        let mut models: Vec<Model> = (0..k).map(|_| Model::default()).collect();
+        let mut replays = 0;
+        let mut switches = 0;
+        let mut last = usize::MAX;
+        for (step, si) in order.iter().enumerate() {
+            let pid = ids[*si][next[*si]];
+            next[*si] += 1;
+            if pid == u64::MAX {
+                continue; // not a sendable id (the limit both callers pass)
+            }
+            if last != usize::MAX && last != *si {
+                switches += 1;
+            }
+            last = *si;
+            let replay = !seen.insert((*si, pid));
+            replays += replay as usize;
+            let mut rs = sess.clone();
+            rs.server_sid = 0x6b00_0000_0000_0000 | ((c.seed & 0xffff_ffff) << 8) | *si as u64;
+            rs.pid = pid;
+            let payload = format!("r{}", step).into_bytes();
+            let mut w = bytes::BytesMut::new();
+            if !matches!(rt::catch(|| sudp.encode(&payload, target.clone(), &rs, &mut w)), Ok(Ok(()))) {
+                return out;
+            }
+            let got = match rt::catch(|| cc.decode(&mut w)) {
+                Err(p) => {
+                    out.fail("client-reply-sessions/panic", p);
+                    return out;
+                }
+                Ok(Ok(Some((content, _)))) => content == payload,
+                _ => false,
+            };
+            let model = models[*si].step(pid, u64::MAX);
+            if got && !delivered.insert((*si, pid)) {
+                out.fail(
+                    "client-reply-sessions/reply-delivered-twice",
+                    format!("step {}: the reply (server session {}, packet id {}) was handed to the application a second time; {} server sessions, history so far {:?}", step, si, pid, k, order[..=step].iter().zip(0..).map(|(s, _)| *s).collect::<Vec<_>>()),
+                );
+                return out;
+            }
+            if k == 1 && got != model {
+                out.fail(
+                    format!("client-reply-sessions/single-session-differs-from-model/{}", if got { "accepted-but-model-refuses" } else { "refused-but-model-accepts" }),
+                    format!("step {}: packet id {}: client codec {} it, the model {}", step, pid, if got { "delivered" } else { "refused" }, if model { "accepts" } else { "refuses" }),
+                );
+                return out;
+            }
+        }
+        out.weight = order.len() as u64;
+        out.label(format!("server-sessions:{}", k));
+        if replays > 0 {
+            out.label("has-replay");
+        }
+        if replays > 0 && (k == 1 || switches > 0) {
+            out.nontrivial(format!("{}|{}|{}|{}", c.cipher.name(), k, replays.min(6), switches.min(6)));
+        }
+        out
+    }
+}
+
 pub fn subs() -> Vec<Box<dyn DynSub>> {
-    let mut v: Vec<Box<dyn DynSub>> = vec![Box::new(FilterModel), Box::new(FilterExhaustive)];
+    let mut v: Vec<Box<dyn DynSub>> = vec![Box::new(FilterModel), Box::new(FilterExhaustive), Box::new(ReplySessions)];
     v.extend(crate::props::c11_sys::subs());
     v
 }
@@ -286,5 +409,6 @@ pub fn run(ctx: &mut PropCtx) {
         rt::run_list(ctx, &FilterExhaustive, "filter-exhaustive", enumerate(len));
     }
     ctx.mark_exhaustive("filter-exhaustive", "every sequence up to the stated length over the boundary alphabet");
+    rt::run_sub(ctx, &ReplySessions, ctx.tier.pick(12_000, 150_000));
     crate::props::c11_sys::run(ctx);
 }
